@@ -27,7 +27,8 @@ def run(ctx):
     timed = [[r] for r in ["rpD", "rpUD", "rpDL", "rp1"]] + [["rpD", "rp1"], ["rp1", "rpD"], ["rpD", "cbB"]]
     mc = 4 if quick else 6
     jobs = [
-        dict(ctx=ctx, binary=binary, name="single", stacks=single, outs=OUTS, maxcalls=mc + 1, execs=2, workers=6),
+        dict(ctx=ctx, binary=binary, name="single", stacks=single, outs=OUTS, maxcalls=mc + 1 if quick else 6, execs=2 if quick else 1, workers=6),
+        dict(ctx=ctx, binary=binary, name="single2", stacks=single, outs=seq.OUTS3, maxcalls=4, execs=2, workers=6),
         dict(ctx=ctx, binary=binary, name="nested", stacks=nested, outs=seq.OUTS3, maxcalls=mc, execs=1, workers=6),
         dict(ctx=ctx, binary=binary, name="mixed", stacks=mixed, outs=seq.OUTS3, maxcalls=mc, execs=2 if not quick else 1, workers=6),
         dict(ctx=ctx, binary=binary, name="timed", stacks=timed, outs=OUTS_T, maxcalls=mc, execs=1, workers=6),
